@@ -198,7 +198,7 @@ __attribute__((no_sanitize("address", "undefined"))) void __sanitizer_cov_trace_
 
 __attribute__((used)) const char *__asan_default_options() {
   return "exitcode=77:detect_leaks=1:leak_check_at_exit=0:allocator_may_return_null=1:abort_on_error=0:"
-         "handle_abort=1:malloc_context_size=12:detect_stack_use_after_return=0:max_allocation_size_mb=2048:symbolize=1";
+         "handle_abort=1:quarantine_size_mb=32:malloc_context_size=12:detect_stack_use_after_return=0:max_allocation_size_mb=2048:symbolize=1";
 }
 __attribute__((used)) const char *__ubsan_default_options() { return "print_stacktrace=1:halt_on_error=1:exitcode=77"; }
 __attribute__((used)) const char *__lsan_default_options() { return "exitcode=0:print_suppressions=0"; }
